@@ -100,7 +100,7 @@ def loadNum (m : M) (a : Int) (size : Nat) : Option (BitVec 64 × Nat) :=
       | some (.dword hi hb) => some ((hi.zeroExtend 64 <<< 32) ||| lo.zeroExtend 64, if lb = 32 then 32 + hb else lb)
       | _ => none
     else none
-  | some (.small v n) => if size = n then some (v, 8 * n) else none
+  | some (.small v n) => if size = n && n ≤ 2 then some (v, 8 * n) else none      -- small cells are 1- or 2-byte spill slots
   | _ => none
 
 /-- one instruction; `none` = something this machine does not know -/
